@@ -363,6 +363,7 @@ fn build_t<V: SimVal>(
     order: &[usize],
     hook: fn(),
 ) -> Result<Box<dyn DynPma>, String> {
+    let identity = order.iter().enumerate().all(|(i, &j)| i == j);
     let pats = order.iter().map(|&i| {
         hook();
         Pat {
@@ -376,7 +377,11 @@ fn build_t<V: SimVal>(
                 .match_kind(spec.kind.mk())
                 .num_free_blocks(spec.num_free_blocks);
             let r = match spec.entry {
-                Entry::Indices => b.build::<_, _, V>(pats),
+                Entry::Indices if identity => b.build::<_, _, V>(pats),
+                // values are the original input positions: a permuted feed has to carry them
+                Entry::Indices => b.build_with_values::<_, _, V>(
+                    pats.zip(order.iter().map(|&i| V::from_raw(i as u64))),
+                ),
                 Entry::WithValues => b.build_with_values::<_, _, V>(
                     pats.zip(order.iter().map(|&i| V::from_raw(spec.values[i]))),
                 ),
@@ -395,7 +400,11 @@ fn build_t<V: SimVal>(
                 .match_kind(spec.kind.mk())
                 .num_free_blocks(spec.num_free_blocks);
             let r = match spec.entry {
-                Entry::Indices => b.build::<_, _, V>(pats),
+                Entry::Indices if identity => b.build::<_, _, V>(pats),
+                // values are the original input positions: a permuted feed has to carry them
+                Entry::Indices => b.build_with_values::<_, _, V>(
+                    pats.zip(order.iter().map(|&i| V::from_raw(i as u64))),
+                ),
                 Entry::WithValues => b.build_with_values::<_, _, V>(
                     pats.zip(order.iter().map(|&i| V::from_raw(spec.values[i]))),
                 ),
